@@ -32,7 +32,7 @@ TLAPS_LIB = "/opt/veriftools/tlapm/lib/tlapm/stdlib"
 # ---------------------------------------------------------------------------------------------- tiers
 TIER = {
     "quick": dict(
-        kfoldind=[dict(MaxN=3, MaxF=2, MaxT=2, MaxM=2)], kfoldind_skip=["ind_lemma"],
+        kfoldind=[dict(MaxN=3, MaxF=2, MaxT=2, MaxM=2)], kfoldind_lemma=None,
         smoind=[4],
         xc_kfold=dict(MaxN=6, MaxF=2, MaxT=2, MaxM=2),
         xc_smo=[3],
@@ -42,6 +42,7 @@ TIER = {
     "thorough": dict(
         kfoldind=[dict(MaxN=4, MaxF=3, MaxT=3, MaxM=3), dict(MaxN=6, MaxF=2, MaxT=2, MaxM=2),
                   dict(MaxN=8, MaxF=2, MaxT=2, MaxM=2)],
+        kfoldind_lemma=dict(MaxN=4, MaxF=2, MaxT=2, MaxM=2),
         smoind=[1, 2, 3, 4, 5, 6, 8, 10],
         xc_kfold=dict(MaxN=9, MaxF=3, MaxT=2, MaxM=2),
         xc_smo=[3, 4],
@@ -50,7 +51,7 @@ TIER = {
         sens_smo=["nobounds", "inverse", "staticloop"],
         sens_tlaps=[("KFoldIndProofs", "copyblock"), ("KFoldIndProofs", "wrongfold"), ("SmoProofs", "nobounds"),
                     ("SmoProofs", "inverse"), ("SmoProofs", "staticloop")],
-        par=6, apa_timeout=1500),
+        par=6, apa_timeout=2700),
 }
 KF_VARIANTS = ["copyblock", "offbyone", "flattargets", "wrongfold"]
 SMO_VARIANTS = ["nobounds", "inverse", "staticloop"]
@@ -326,11 +327,11 @@ def run(ctx):
     main = kfoldidx_obs(kfv)
     for c in t["kfoldind"]:
         # ("offbyone" indexes out of the buffer: pointwise model only)
-        # (the involution lemma on arbitrary contents is the slowest query and is proved for every length by TLAPS:
-        #  it is run on the first, smallest configuration only)
-        main += [o for o in kfoldind_obs("ok" if kfv == "offbyone" else kfv, c)
-                 if o["name"].split("_N")[0] not in t.get("kfoldind_skip", [])
-                 and (c is t["kfoldind"][0] or not o["name"].startswith("ind_lemma"))]
+        main += kfoldind_obs("ok" if kfv == "offbyone" else kfv, c, only=["ind_init", "ind_step", "ind_safety"])
+    # the involution lemma on arbitrary buffer contents is the slowest kind of query (MaxN=8: 878 s) and is proved for
+    # every length by TLAPS: it is run on one small configuration in the thorough tier only
+    if t.get("kfoldind_lemma"):
+        main += kfoldind_obs("ok" if kfv == "offbyone" else kfv, t["kfoldind_lemma"], only=["ind_lemma"])
     for L in t["smoind"]:
         main += smoind_obs(smv, L)
     # sensitivity obligations (expected to FAIL); skipped when the whole run is on a broken variant
